@@ -284,7 +284,19 @@ class Check:
     # ---- failures
     def violation(self, clause, signature, witness, detail=''):
         """A concrete input on which the PROPERTY fails on the implementation."""
-        if len(self.violations) < 200:
+        # listed findings must not crowd out new violations: at most 3 examples of each are kept, the cap of 200 applies
+        # to the others
+        if not hasattr(self, '_mine'):
+            self._mine = [k for k in load_known().get('findings', []) if k['property'] == self.prop_id]
+            self._known_kept = {}
+        for k in self._mine:
+            if k.get('clause') in (None, clause) and re.search(k['signature_regex'], signature):
+                n = self._known_kept.get(k['id'], 0)
+                self._known_kept[k['id']] = n + 1
+                if n < 3:
+                    self.violations.append({'clause': clause, 'signature': signature, 'witness': witness, 'detail': detail})
+                return
+        if sum(1 for v in self.violations if not v.get('_known')) < 200 + 3 * len(self._mine):
             self.violations.append({'clause': clause, 'signature': signature, 'witness': witness, 'detail': detail})
 
     def mismatch(self, what, witness, detail=''):
